@@ -349,11 +349,11 @@ def standard_coq_phase(run, cid, gens=(), extra_targets=()):
         # independent re-check of the compiled property file and everything under it
         cmd = "coqchk -silent -o -Q theories Adept -Q generated AdeptGen Adept.Properties_%s" % cid
         with Lock("coq.lock"):
-            rc, so, se = sh("timeout 1500 " + cmd, cwd=COQ, timeout=1520)
+            rc, so, se = sh("timeout 300 " + cmd, cwd=COQ, timeout=320)
         out = so + se
         m = re.search(r"\* Axioms:(.*?)\n\s*\n\* Constants/Inductives relying on type-in-type:(.*?)\n\s*\n\* Constants/Inductives relying on unsafe \(co\)fixpoints:(.*?)\n\s*\n\* Inductives whose positivity is assumed:(.*?)\n", out, re.S)
         if rc == 124:
-            run.notes.append("coqchk did not finish within 25 minutes; not counted")
+            run.notes.append("coqchk did not finish within 5 minutes (property files that depend on Coquelicot / Interval take more than 25 minutes to re-check); not counted")
         elif rc != 0 or not m:
             ok_all = False
             run.finding("coqchk:%s" % cid, "broken-obligation", "coqchk rejects the compiled Properties_%s.vo or its dependencies: %s" % (cid, out[-600:]), {"cmd": cmd, "output": out[-3000:]})
